@@ -1,4 +1,5 @@
-"""Human-written fields of MANIFEST.json, per property."""
+"""Human-written global fields of MANIFEST.json (per-property text lives in units/C??.py)."""
+import checks_config
 
 NOTES = ("Every check is generated-input search against an explicit oracle (pgregory.net/rapid v1.3.0 generators and state "
          "machines, complete enumeration of small finite sub-spaces by the same harness, Go native fuzzing in the thorough tier). "
@@ -7,17 +8,4 @@ NOTES = ("Every check is generated-input search against an explicit oracle (pgre
 
 NOT_APPLICABLE = {}
 
-TEXT = {
-    "C11": {
-        "technique": "complete enumeration of short histories + rapid state machine vs reference model + concurrent batches under -race",
-        "engine": "rapid + enumeration (in-package harness in common/replayfilter)",
-        "level_text": ("Exploration. All histories of up to 5 (quick) / 6 (thorough) operations over a small alphabet with signed time "
-                       "steps are enumerated completely against a declarative set semantics and an operational model; longer random "
-                       "histories including real capacity overflow (102400+k inserts) and backward clock jumps are driven by a rapid "
-                       "state machine with structural invariants after every step; concurrent submissions are checked for "
-                       "exactly-one-winner under the race detector. Absence of violations beyond the explored bound is not established."),
-        "level_note": ("Trusted: Go runtime, the harness's own reference model. After a partial backward clock jump (earlier than some "
-                       "but not the oldest entry) only invariants are compared until the model has emptied, because the property makes "
-                       "no exact claim there. Interleavings of concurrent callers are sampled by the Go scheduler, not enumerated."),
-    },
-}
+TEXT = checks_config.TEXT
